@@ -959,10 +959,17 @@ wavlike_subchunk_parse (SF_PRIVATE *psf, int chunk, uint32_t chunk_length)
 
 	current_pos = psf_fseek (psf, 0, SEEK_CUR) ;
 
+	if (chunk_length < 4)
+	{	/* Not even room for the list type : skip it (skipping 'length - 4' would move backwards, onto the same chunk again). */
+		psf_log_printf (psf, "%M : %u (weird length)\n", chunk, chunk_length) ;
+		psf_binheader_readf (psf, "j", (size_t) chunk_length) ;
+		return 0 ;
+		} ;
+
 	if (chunk_length <= 8)
 	{	/* This case is for broken files generated by PEAK. */
 		psf_log_printf (psf, "%M : %u (weird length)\n", chunk, chunk_length) ;
-		psf_binheader_readf (psf, "mj", &chunk, chunk_length - 4) ;
+		psf_binheader_readf (psf, "mj", &chunk, (size_t) (chunk_length - 4)) ;
 		psf_log_printf (psf, "  %M\n", chunk) ;
 		return 0 ;
 		} ;
